@@ -45,13 +45,13 @@ SPEC = {
     "floors": {"TestBounds/preload": 0.15, "TestBounds/single_entry": 0.1, "TestBounds/through_engine": 0.18,
                "TestBounds/live_consumers": 0.065, "TestBounds/late_consumers": 0.04,
                "TestBounds/provider_failed_with_consumers_acquiring": 0.012,
-               "TestBounds/chosencases_subset": 0.1, "TestBounds/chosencases_proper_subset": 0.06,
+               "TestBounds/chosencases_subset": 0.1, "TestBounds/chosencases_proper_subset": 0.048,
                "TestBounds/chosencases_match_nothing": 0.05, "TestBounds/cancelled_while_scanning": 0.04,
                "TestBounds/jsonline/cancelled_while_scanning": 0.0033, "TestBounds/jsonarray/cancelled_while_scanning": 0.0033,
                "TestBounds/maxammosize_set": 0.17, "TestBounds/entries_1k_to_48k": 0.07,
                "TestBounds/entries_over_64k": 0.05, "TestBounds/entries_over_64k_read_again": 0.03,
                "TestBounds/grpc/json/entries_over_64k_read_again": 0.0085, "TestBounds/jsonline/entries_over_64k_read_again": 0.009,
-               "TestBounds/jsonarray/entries_over_64k_read_again": 0.009,
+               "TestBounds/jsonarray/entries_over_64k_read_again": 0.007,
                "TestBounds/json/source_file/read_again": 0.006, "TestBounds/json/source_inline/read_again": 0.006, "TestBounds/json/source_stdin/read_again": 0.006, "TestBounds/json/source_reader_strings/read_again": 0.006, "TestBounds/json/source_reader_file/read_again": 0.006, "TestBounds/json/source_string/read_again": 0.006,
                "TestBounds/json/source_inline/read_again_passes_only": 0.002, "TestBounds/json/source_inline/read_again_to_limit": 0.003, "TestBounds/json/source_inline/read_again_unbounded": 0.003},
     "manifest": {
